@@ -221,7 +221,6 @@ Definition supers_ready (w : world) (supers : list nat) : bool :=
   forallb (fun s => match lookup (reg w) s with Some id => readyb w id | None => false end) supers.
 Fixpoint nodupb (l : list nat) : bool :=
   match l with [] => true | x :: r => negb (memb x r) && nodupb r end.
-Definition cache_keys (w : world) : list nat := flat_map (fun kg => map fst (g_cache (snd kg))) (gfs w).
 
 Definition g_defclass (w : world) (n : nat) (supers : list nat) (slots : list slotdef) (rorder corder : list nat) : bool :=
   let wr := defclass_reg w n supers slots in
@@ -240,8 +239,6 @@ Definition g_defclass (w : world) (n : nat) (supers : list nat) (slots : list sl
            let bad := n :: flat_map (fun id => match name_of w id with Some m => [m] | None => [] end) subs in
            (* no superclass of the new definition inherits the class being redefined *)
            forallb (fun d => negb (memb d bad)) supers
-           (* no generic has cached a dispatch for the class or an inheriting class *)
-           && forallb (fun k => negb (memb k bad)) (cache_keys w)
          else true
      end.
 
